@@ -10,6 +10,7 @@ import (
 	"math"
 	"net/url"
 	"regexp"
+	"strings"
 	"time"
 
 	z "github.com/Oudwins/zog"
@@ -22,7 +23,9 @@ import (
 // runOneTest builds a single-test schema of the right kind and reports (passed, issue code, params).
 func runOneTest(kind string, t eng.TestSpec, subj eng.D, elemKind string) (pass bool, iss eng.Iss, panicked string) {
 	var n *eng.Node
-	if kind == "slice" {
+	if kind == "slice" && elemKind == "ptrint" {
+		n = &eng.Node{Kind: "slice", Elem: &eng.Node{Kind: "ptr", Elem: &eng.Node{Kind: "prim", PK: "int"}}, Tests: []eng.TestSpec{t}}
+	} else if kind == "slice" {
 		n = &eng.Node{Kind: "slice", Elem: &eng.Node{Kind: "prim", PK: elemKind}, Tests: []eng.TestSpec{t}}
 	} else {
 		n = &eng.Node{Kind: "prim", PK: kind, Tests: []eng.TestSpec{t}}
@@ -244,6 +247,20 @@ func streamPreds(seed uint64, n int, driver string, tier string) (*Summary, erro
 			cases = append(cases, pc{"slice", "int", t, d})
 		}
 	}
+	// slices of pointers: Contains is membership by DEEP equality (a distinct pointer to an equal value is a member)
+	for _, x := range []int64{0, 2, 7} {
+		t := mk("slcontains")
+		xv := eng.D{K: "i", NK: "int", I: x}
+		t.Arg = eng.D{K: "p", P: &xv}
+		for l := 1; l <= 3; l++ {
+			d := eng.D{K: "sl"}
+			for i := 0; i < l; i++ {
+				e := eng.D{K: "i", NK: "int", I: int64(i)}
+				d.L = append(d.L, eng.D{K: "p", P: &e})
+			}
+			cases = append(cases, pc{"slice", "ptrint", t, d})
+		}
+	}
 	// random strings against random string tests
 	for i := 0; i < n; i++ {
 		t := strTests[r.Intn(len(strTests))]
@@ -291,6 +308,16 @@ func streamPreds(seed uint64, n int, driver string, tier string) (*Summary, erro
 				ps = append(ps, [2]string{kv.List[0].Str(), kv.List[1].Str()})
 			}
 			mline += " code=" + m.List[3].Str() + " params=" + fmt.Sprint(ps)
+		}
+		if c.elem == "ptrint" {
+			// the parameter's %v rendering is an address: compare pass/fail and the code only
+			cut := func(s string) string {
+				if k := strings.Index(s, " params="); k >= 0 {
+					return s[:k]
+				}
+				return s
+			}
+			mline, impl[i] = cut(mline), cut(impl[i])
 		}
 		if mline != impl[i] {
 			sum.FullLineMismatches++
